@@ -129,6 +129,17 @@ func runC05(s *Svc, m *spec.Method, tier string) *MethodResult {
 				{"name": d.Name, "msg": "é \"q\"", "code": int64(-1)},
 			} {
 				val := val
+				// an empty string carried in a header is seen as absent (C03 known class): not this property's subject
+				for _, h := range resps[d.Name].Headers {
+					if sv, ok := val[h.Attr].(string); ok && sv == "" {
+						c2 := spec.Obj{}
+						for k, x := range val {
+							c2[k] = x
+						}
+						c2[h.Attr] = "z"
+						val = c2
+					}
+				}
 				cases = append(cases, errCase{label: "declared-custom", declared: d.Name, custom: val, build: func() (error, error) {
 					pv := reflect.New(rt)
 					if err := s.V.Set(pv.Elem(), d.Type, val); err != nil {
@@ -218,6 +229,9 @@ func c05One(s *Svc, m *spec.Method, ec errCase, resps map[string]spec.Resp, r *M
 	}
 	var sigs []string
 	feat := fmt.Sprintf("level=%s type=%s status=%s case=%s", m.Feat["level"], m.Feat["type"], m.Feat["status"], ec.label)
+	if sh := m.Feat["shape"]; sh != "" {
+		feat += " shape=" + sh
+	}
 	fail := func(sig, what string) {
 		sigs = append(sigs, sig)
 		if report {
